@@ -74,6 +74,10 @@ TRUSTED = [
     "recognition by create_stog is proved against the C06 model (FV/Model/Stog.lean, whose fidelity is C06's "
     "correspondence check) and exercised here on the implementation with the loader's ε",
     "harness (Python) and compiled Lean driver: parsing, canonicalisation, comparison, brute-force oracle",
+    "FLOAT / FIELD GAP: the polygon theorems (pip_*, matrix_of_traced_polygon, rectangle_*, histogram_*) are about exact ordered "
+    "fields; on doubles strop_decomposition is only executed and searched: it raises AssertionError on polygons whose coordinate "
+    "differences are absorbed by rounding (e.g. the rectangle [1+2^-52, 1+2^-51]x[0,1], integer coordinates at 2^53, [1e308, 1.5e308]) "
+    "— audit 4 row 15; such inputs are outside what is claimed",
 ]
 
 SIDES = "NSEW"
